@@ -94,6 +94,22 @@ CLAIMED["C13"] = dict(
     technique="Coq proof over an abstract group (Section hypotheses) + correspondence with BigZ curve arithmetic evaluated by vm_compute",
 )
 
+CLAIMED["C17"] = dict(
+    category="proof",
+    text="Theorems in coq/Props/Properties_C17.v: (A) configuration contexts as a state machine over arbitrary operation histories -- operations on one context never change another context's handler, user pointer, deliveries or call results (C17_ctx_isolated), every delivery carries the handler and pointer registered with its own context, get_err_misc returns the last registered pointer, clearing falls back to the default handler; (B) an ownership model of the header-merge prologue gives back every reference; (C) C17_schedule_free: if every thread reads/writes only its own component, every schedule yields the sequential per-thread results (induction on schedules), with a counterexample when the footprint premise fails. Tie: all histories of length <= 4 over 23 context operations vs real contexts with logging handlers; every read-only entry point and the shared-template paths called on valid and mutated inputs with deep-equality, dump and reference-count comparison of every argument; 2..16 threads of independent operations vs the sequential run (TSan in the thorough tier).",
+    design_ref="DESIGN.md section 3 C17",
+    note="PARTIAL for schedules: the footprint premise of C17_schedule_free is not proved for the C code (no concurrent C semantics available) -- it is checked dynamically (result comparison, TSan, a scan of lib/ for writable objects with static storage). Argument preservation is checked dynamically on the implementation; on the immutable-tree models it is trivial.",
+    technique="Coq proof (induction over histories / schedules) + exhaustive short-history correspondence + dynamic purity/thread checks",
+)
+
+CLAIMED["C02"] = dict(
+    category="proof",
+    text="Theorems in coq/Props/Properties_C02.v about Gallina models of jose_jwe_dec_jwk / jose_jwe_dec_cek(_io) / jose_jwe_dec (lib/jwe.c) and of the per-algorithm unwrap and content-decryption code (lib/openssl/*.c): success means exactly that the key unwraps a CEK from the targeted recipient and that AEAD-open succeeds under that CEK over the AAD input protected [|| '.' || aad] IN FULL, the iv, the ciphertext octets and the tag, followed by inflate when zip is in the protected header; no recipient / no key gives failure. Tie: library-produced tokens for key-management x content-encryption x zip x aad (absent, shorter, equal, longer than protected), decrypted with the recipient key, a foreign key and key sets; single-character mutations of every integrity-relevant member (protected, aad, iv, ciphertext, tag, encrypted_key, p2s, p2c, epk, wrapped iv/tag) and structural mutations; symmetric and PBES2 recipients also on the extracted model with independent Gallina AES-GCM / CBC-HMAC / RFC 3394 / PBKDF2 / inflate.",
+    design_ref="DESIGN.md section 3 C02",
+    note="Coq kernel; no axioms; integrity of the primitives (a changed input makes AEAD-open / unwrap fail) is cryptography and not proved; ECDH-ES and RSA recipients are checked on the implementation with the mutation oracle in this check.",
+    technique="Coq proof (closed form of the decryption pipeline) + extracted-model correspondence with mutation",
+)
+
 NOT_YET = {}
 
 def main():
